@@ -183,7 +183,7 @@ def _worker(a):
                 if not entries and r == 0:
                     tree = [(b"other", ("str", b"x"))]
                 p = b.add_file(confgen.render_conservative(tree))
-                cmds += ["LOAD " + confgen.pct(p), "EMIT %d %s" % (r, ",".join(FACS))]
+                cmds += ["LOAD " + confgen.pct(p), "EMIT %d %s" % (r, ",".join(FACS)), "DUMP"]
                 if (i + r) % 3 == 0:
                     # long texts (around and beyond the logger's formatting buffer): round number r+100
                     cmds.append("EMITLONG %d %s %d" % (r + 100, ",".join(FACS), LONG_LENS[(i // 3 + r) % len(LONG_LENS)]))
@@ -217,6 +217,16 @@ def _worker(a):
                 out.append(("fatal-exit", "fatal-exit", "a fatal message did not terminate the process with status 1: " + o, wit))
         stats["sections"] += len(secs)
         stats["reload_sequences"] += 1 if len(secs) > 1 else 0
+        # the section is the file's, not the logger's: after it has been read and used, its entries are named as they were written
+        for r_, (entries, routes) in enumerate(secs):
+            if r_ < len(rec.dumps):
+                have_keys = sorted(m_.group(1).lower() for m_ in (re.match(r'^N "logs"/"((?:[^"\\]|\\.)*)" ', l_) for l_ in rec.dumps[r_]) if m_)
+                want_keys = sorted(set(k_.decode("latin-1").lower() for k_, _ in entries) | {"verbose_timestamp"})
+                stats["sections_compared_with_their_dump"] = stats.get("sections_compared_with_their_dump", 0) + 1
+                if have_keys != want_keys:
+                    out.append(("section-rewritten", "section-rewritten", "round %d: after the section was read and messages were logged, its entries are %s; it was written with %s" % (
+                        r_, have_keys, want_keys), wit))
+                    break
         got = {}
         for d in dests:
             for ln in files.get(d, "").split("\n"):
